@@ -477,3 +477,743 @@ Lemma handle_clean : forall w seg h stop sy n store,
   wf_world w -> SyOk w sy -> clean n -> HasGood w sy ->
   h_ok (handle fx_fixed w seg h stop None sy n store) = true.
 Proof. intros. unfold handle. apply handle_segs_clean; auto. Qed.
+
+(* ---------------------------------------------------------------------------------- *)
+(* Part 4: the store and the log, for the code with or without the fixes                *)
+
+Lemma fetch_loop_log : forall fx w fuel r sy n d t tried res sy' n',
+  fetch_loop fx w fuel r sy n d t tried = (res, sy', n') ->
+  log_ext n n' /\ (res = FetchOk -> exists a np, In (a, np, r, Some FOk) (n_log n')).
+Proof.
+  intros fx w fuel. induction fuel as [|fuel IH]; intros r sy n d t tried res sy' n' H.
+  - simpl in H. inversion H; subst. split; [apply log_ext_refl | intros; discriminate].
+  - simpl in H.
+    destruct (exchange w (sy_pinned sy) (hd 0 (sy_urls sy)) (sy_nopath sy || t) r n) as [x n1] eqn:Hx.
+    pose proof (exchange_log _ _ _ _ _ _ _ _ Hx) as Hl1.
+    destruct x as [reset| c | |].
+    + destruct (can_failover fx sy tried).
+      * apply IH in H. destruct H. split; eauto using log_ext_trans.
+      * destruct (negb d && reset).
+        -- apply IH in H. destruct H. split; eauto using log_ext_trans.
+        -- inversion H; subst. split; [assumption | intros; discriminate].
+    + destruct ((c =? 404)%N || (c =? 403)%N).
+      * destruct (sy_plain sy && negb (sy_nopath sy) && negb t).
+        -- destruct (fx_nopath fx); apply IH in H; destruct H; split; eauto using log_ext_trans.
+        -- inversion H; subst. split; [assumption | intros; discriminate].
+      * inversion H; subst. split; [assumption | intros; discriminate].
+    + inversion H; subst. split; [assumption|]. intros _.
+      apply exchange_good in Hx. destruct Hx as [_ Hlog].
+      exists (hd 0 (sy_urls sy)), (sy_nopath sy || t). rewrite Hlog. left. reflexivity.
+    + inversion H; subst. split; [assumption | intros; discriminate].
+Qed.
+
+Lemma walk_store : forall fx w todo sy n store ok sy' n' store',
+  walk fx w todo sy n store = (ok, sy', n', store') ->
+  log_ext n n' /\ sub store store' /\
+  (forall p, In p store' -> In p store \/
+     (In p todo /\ exists a np, In (a, np, Blk p, Some FOk) (n_log n'))) /\
+  (ok = true -> sub todo store').
+Proof.
+  intros fx w todo. induction todo as [|p rest IH]; intros sy n store ok sy' n' store' H; simpl in H.
+  - inversion H; subst. repeat split; auto using log_ext_refl; try solve [intros q Hq; auto].
+    intros _ q [].
+  - destruct (mem p store) eqn:Hm.
+    + apply IH in H. destruct H as [H4 [H5 [H6 H7]]].
+      repeat split; auto.
+      * intros q Hq. destruct (H6 q Hq) as [|[Hi He]]; [left; assumption|right; split; [right; exact Hi|exact He]].
+      * intros Ht q [Hq|Hq]; [subst; apply H5; apply mem_In; exact Hm | apply H7; assumption].
+    + destruct (fetch fx w (Blk p) sy n) as [[res sy1] n1] eqn:Hf.
+      unfold fetch in Hf. destruct (fetch_loop_log _ _ _ _ _ _ _ _ _ _ _ _ Hf) as [F5 F6].
+      destruct res.
+      * apply IH in H. destruct H as [H4 [H5 [H6 H7]]].
+        repeat split; eauto using log_ext_trans.
+        -- intros q Hq. apply H5. right. exact Hq.
+        -- intros q Hq. destruct (H6 q Hq) as [[Hq'|Hq']|[Hi He]].
+           ++ subst q. right. split; [left; reflexivity|].
+              destruct (F6 eq_refl) as [a [np Hlog]]. exists a, np. eapply log_ext_In; eauto.
+           ++ left. exact Hq'.
+           ++ right. split; [right; exact Hi|exact He].
+        -- intros Ht q [Hq|Hq]; [subst; apply H5; left; reflexivity | apply H7; assumption].
+      * inversion H; subst. repeat split; auto; try solve [intros q Hq; auto]; intros; discriminate.
+      * inversion H; subst. repeat split; auto; try solve [intros q Hq; auto]; intros; discriminate.
+Qed.
+
+Lemma handle_segs_store : forall fx w sg segs hf sy n store hooks r,
+  handle_segs fx w sg segs hf sy n store hooks = r ->
+  log_ext n (h_net r) /\ sub store (h_store r) /\
+  (forall p, In p (h_store r) -> In p store \/
+     (In p (concat segs) /\ exists a np, In (a, np, Blk p, Some FOk) (n_log (h_net r)))) /\
+  (h_ok r = true -> sub (concat segs) (h_store r)) /\
+  (h_ok r = false -> h_count r = 0).
+Proof.
+  intros fx w sg segs. induction segs as [|s rest IH]; intros hf sy n store hooks r H; simpl in H.
+  - subst r. simpl. repeat split; auto using log_ext_refl; try solve [intros q Hq; auto]; try (intros; discriminate).
+    intros _ q [].
+  - destruct (walk fx w s sy n store) as [[[ok sy1] n1] store1] eqn:Hw.
+    destruct (walk_store _ _ _ _ _ _ _ _ _ _ Hw) as [W4 [W5 [W6 W7]]].
+    destruct ok.
+    + destruct (sg && hook_fails hf (length hooks) (length s)).
+      * subst r. simpl. repeat split; auto; try (intros; discriminate).
+        intros q Hq. destruct (W6 q Hq) as [|[Hi He]]; [left; assumption|].
+        right. split; [apply in_or_app; left; exact Hi | exact He].
+      * apply IH in H. destruct H as [H4 [H5 [H6 [H7 H8]]]].
+        repeat split; eauto using log_ext_trans.
+        -- intros q Hq. apply H5. apply W5. exact Hq.
+        -- intros q Hq. destruct (H6 q Hq) as [Hq'|[Hi He]].
+           ++ destruct (W6 q Hq') as [|[Hi He]]; [left; assumption|].
+              right. split; [apply in_or_app; left; exact Hi|].
+              destruct He as [a [np He]]. exists a, np. eapply log_ext_In; eauto.
+           ++ right. split; [apply in_or_app; right; exact Hi | exact He].
+        -- intros Ht q Hq. apply in_app_or in Hq. destruct Hq as [Hq|Hq].
+           ++ apply H5. apply W7; [reflexivity | exact Hq].
+           ++ apply H7; assumption.
+    + subst r. simpl. repeat split; auto; try (intros; discriminate).
+      intros q Hq. destruct (W6 q Hq) as [|[Hi He]]; [left; assumption|].
+      right. split; [apply in_or_app; left; exact Hi | exact He].
+Qed.
+
+Lemma handle_store : forall fx w seg h stop hf sy n store r,
+  handle fx w seg h stop hf sy n store = r ->
+  log_ext n (h_net r) /\ sub store (h_store r) /\
+  (forall p, In p (h_store r) -> In p store \/
+     (In p (todo h stop) /\ exists a np, In (a, np, Blk p, Some FOk) (n_log (h_net r)))) /\
+  (h_ok r = true -> sub (todo h stop) (h_store r)) /\
+  (h_ok r = false -> h_count r = 0).
+Proof.
+  intros fx w seg h stop hf sy n store r H. unfold handle in H.
+  apply handle_segs_store in H. rewrite concat_segments in H. exact H.
+Qed.
+
+(* ---------------------------------------------------------------------------------- *)
+(* makeSyncer                                                                          *)
+
+Lemma make_syncer_frame : forall w st addrs d osy st1,
+  make_syncer w st addrs d = (osy, st1) ->
+  s_latest st1 = s_latest st /\ s_store st1 = s_store st /\ s_cache st1 = s_cache st /\
+  (forall sy, osy = Some sy -> s_syncer st1 = Some sy) /\
+  (osy = None -> s_syncer st1 = s_syncer st).
+Proof.
+  intros w st addrs d osy st1 H. unfold make_syncer in H.
+  assert (Hc : forall l, (let '(osy0, c) := new_syncer w l d (s_disc st) in
+              (osy0, {| s_latest := s_latest st; s_store := s_store st;
+                        s_syncer := match osy0 with Some _ => osy0 | None => s_syncer st end;
+                        s_cache := s_cache st; s_disc := c |})) = (osy, st1) ->
+          s_latest st1 = s_latest st /\ s_store st1 = s_store st /\ s_cache st1 = s_cache st /\
+          (forall sy, osy = Some sy -> s_syncer st1 = Some sy) /\ (osy = None -> s_syncer st1 = s_syncer st)).
+  { intros l Hl. destruct (new_syncer w l d (s_disc st)) as [o c]. inversion Hl; subst. simpl.
+    repeat split; auto; intros; subst; reflexivity. }
+  destruct (s_syncer st) as [sy|] eqn:Hs; [|apply (Hc addrs); exact H].
+  destruct (negb (length (sy_addrs sy) =? length addrs)); [apply (Hc addrs); exact H|].
+  destruct (length addrs <=? 1).
+  - destruct (list_nat_eqb (sy_addrs sy) addrs); [|apply (Hc addrs); exact H].
+    inversion H; subst. repeat split; auto; intros; try congruence; try discriminate.
+  - destruct (list_nat_eqb (sort (sy_addrs sy)) (sort addrs)); [|apply (Hc (sort addrs)); exact H].
+    inversion H; subst. repeat split; auto; intros; try congruence; try discriminate.
+Qed.
+
+(* ---------------------------------------------------------------------------------- *)
+(* Per-step theorems: a failed sync changes nothing durable                             *)
+
+Definition failed (r : result) : bool :=
+  match r with RExpErr | RAnnErr | RAnnSilent => true | _ => false end.
+
+Lemma failed_sync_preserves_latest_l : forall fx w seg o st,
+  failed (o_res (snd (step fx w seg o st))) = true ->
+  s_latest (fst (step fx w seg o st)) = s_latest st.
+Proof.
+  intros fx w seg o st. unfold step. destruct (op_mode o).
+  - unfold sync_explicit.
+    destruct (make_syncer w st (op_addrs o) (op_discfail o)) as [[sy|] st1] eqn:Hm;
+      destruct (make_syncer_frame _ _ _ _ _ _ Hm) as [Hl _]; [|simpl; intros; exact Hl].
+    destruct (fetch fx w Head sy (net0 o)) as [[res sy1] n1]. destruct res; simpl; try (intros; exact Hl).
+    destruct (s_latest st1 =? op_head o); simpl; [discriminate|].
+    destruct (h_ok _); simpl; [discriminate | intros; exact Hl].
+  - unfold sync_announce. destruct (mem (op_head o) (s_cache st)); simpl; [discriminate|].
+    destruct (s_latest st =? op_head o); simpl; [discriminate|].
+    destruct (make_syncer w _ (op_addrs o) (op_discfail o)) as [[sy|] st1] eqn:Hm;
+      destruct (make_syncer_frame _ _ _ _ _ _ Hm) as [Hl _]; simpl in Hl.
+    + destruct (h_ok _); simpl; [discriminate | intros; exact Hl].
+    + destruct (fx_announce fx); simpl; intros; exact Hl.
+Qed.
+
+Lemma failed_sync_no_success_event_l : forall fx w seg o st h c,
+  failed (o_res (snd (step fx w seg o st))) = true ->
+  ~ In (EvOk h c) (o_events (snd (step fx w seg o st))).
+Proof.
+  intros fx w seg o st h c. unfold step. destruct (op_mode o).
+  - unfold sync_explicit.
+    destruct (make_syncer w st (op_addrs o) (op_discfail o)) as [[sy|] st1]; [|simpl; tauto].
+    destruct (fetch fx w Head sy (net0 o)) as [[res sy1] n1]. destruct res; simpl; try tauto.
+    destruct (s_latest st1 =? op_head o); simpl; [discriminate|].
+    destruct (h_ok _); simpl; [discriminate | tauto].
+  - unfold sync_announce. destruct (mem (op_head o) (s_cache st)); simpl; [discriminate|].
+    destruct (s_latest st =? op_head o); simpl; [discriminate|].
+    destruct (make_syncer w _ (op_addrs o) (op_discfail o)) as [[sy|] st1].
+    + destruct (h_ok _); simpl; [discriminate|]. intros _ [H|[]]. discriminate.
+    + destruct (fx_announce fx); simpl; [|tauto]. intros _ [H|[]]. discriminate.
+Qed.
+
+(* success is the only way latest-sync moves, and it moves to the head that was synced *)
+Lemma success_event_sets_latest_l : forall fx w seg o st h c,
+  In (EvOk h c) (o_events (snd (step fx w seg o st))) ->
+  h = op_head o /\ s_latest (fst (step fx w seg o st)) = h /\ failed (o_res (snd (step fx w seg o st))) = false.
+Proof.
+  intros fx w seg o st h c. unfold step. destruct (op_mode o).
+  - unfold sync_explicit.
+    destruct (make_syncer w st (op_addrs o) (op_discfail o)) as [[sy|] st1]; [|simpl; tauto].
+    destruct (fetch fx w Head sy (net0 o)) as [[res sy1] n1]. destruct res; simpl; try tauto.
+    destruct (s_latest st1 =? op_head o); simpl; [tauto|].
+    destruct (h_ok _); simpl; [|tauto]. intros [H|[]]. inversion H; subst. auto.
+  - unfold sync_announce. destruct (mem (op_head o) (s_cache st)); simpl; [tauto|].
+    destruct (s_latest st =? op_head o); simpl; [tauto|].
+    destruct (make_syncer w _ (op_addrs o) (op_discfail o)) as [[sy|] st1].
+    + destruct (h_ok _); simpl; intros [H|[]]; inversion H; subst; auto.
+    + destruct (fx_announce fx); simpl; [|tauto]. intros [H|[]]. discriminate.
+Qed.
+
+(* an announce-triggered sync that fails emits exactly one error event (count 0) and its
+   CID leaves the duplicate filter; with the fix, it never fails silently *)
+Lemma async_failure_l : forall fx w seg o st,
+  fx_announce fx = true -> op_mode o = Announce ->
+  let st' := fst (step fx w seg o st) in
+  let ob := snd (step fx w seg o st) in
+  o_res ob <> RAnnSilent /\
+  (failed (o_res ob) = true ->
+     o_res ob = RAnnErr /\ o_events ob = [EvErr (op_head o) 0] /\ ~ In (op_head o) (s_cache st')) /\
+  (failed (o_res ob) = false -> o_res ob <> RAnnOk -> o_events ob = [] /\ s_latest st' = s_latest st).
+Proof.
+  intros fx w seg o st Hfx Hm. unfold step. rewrite Hm. unfold sync_announce.
+  destruct (mem (op_head o) (s_cache st)); simpl;
+    [split; [discriminate | split; [intros; discriminate | intros; split; reflexivity]]|].
+  destruct (s_latest st =? op_head o); simpl;
+    [split; [discriminate | split; [intros; discriminate | intros; split; reflexivity]]|].
+  destruct (make_syncer w _ (op_addrs o) (op_discfail o)) as [[sy|] st1] eqn:Hms;
+    destruct (make_syncer_frame _ _ _ _ _ _ Hms) as [Hl [_ [Hc _]]]; simpl in Hl, Hc.
+  - destruct (handle fx w seg (op_head o) (s_latest st1) (op_hookfail o) sy (net0 o) (s_store st1)) as [ok cnt hk sy' n' store'] eqn:Hh.
+    destruct (handle_store _ _ _ _ _ _ _ _ _ _ Hh) as [_ [_ [_ [_ H0]]]]. simpl in *.
+    destruct ok; simpl.
+    + split; [discriminate | split; [intros; discriminate|]]. intros _ Hne. exfalso. apply Hne. reflexivity.
+    + rewrite (H0 eq_refl). split; [discriminate | split; [|intros; discriminate]].
+      intros _. split; [reflexivity | split; [reflexivity | apply In_remove]].
+  - rewrite Hfx. simpl. split; [discriminate | split; [|intros; discriminate]].
+    intros _. split; [reflexivity | split; [reflexivity | apply In_remove]].
+Qed.
+
+(* blocks already verified remain; a block enters the store only when the publisher's own
+   answer to the request for THAT block arrived un-faulted *)
+Lemma verified_blocks_survive_l : forall fx w seg o st,
+  let st' := fst (step fx w seg o st) in
+  let ob := snd (step fx w seg o st) in
+  sub (s_store st) (s_store st') /\
+  (forall p, In p (s_store st') -> In p (s_store st) \/
+     exists a np, In (a, np, Blk p, Some FOk) (o_log ob)).
+Proof.
+  intros fx w seg o st. unfold step. destruct (op_mode o).
+  - unfold sync_explicit.
+    destruct (make_syncer w st (op_addrs o) (op_discfail o)) as [[sy|] st1] eqn:Hm;
+      destruct (make_syncer_frame _ _ _ _ _ _ Hm) as [_ [Hs _]]; simpl;
+      [|rewrite Hs; split; [intros p Hp; exact Hp | intros p Hp; left; exact Hp]].
+    destruct (fetch fx w Head sy (net0 o)) as [[res sy1] n1] eqn:Hf. unfold fetch in Hf.
+    destruct (fetch_loop_log _ _ _ _ _ _ _ _ _ _ _ _ Hf) as [Hl1 _].
+    destruct res; simpl; try (rewrite Hs; split; [intros p Hp; exact Hp | intros p Hp; left; exact Hp]).
+    destruct (s_latest st1 =? op_head o); simpl;
+      [rewrite Hs; split; [intros p Hp; exact Hp | intros p Hp; left; exact Hp]|].
+    destruct (handle fx w seg (op_head o) (s_latest st1) (op_hookfail o) sy1 n1 (s_store st1)) as [ok cnt hk sy' n' store'] eqn:Hh.
+    destruct (handle_store _ _ _ _ _ _ _ _ _ _ Hh) as [_ [H5 [H6 _]]]. simpl in *. rewrite Hs in *.
+    destruct ok; simpl; (split; [exact H5|]); intros p Hp;
+      (destruct (H6 p Hp) as [|[_ [a [np Hi]]]]; [left; assumption | right; exists a, np; apply -> in_rev; exact Hi]).
+  - unfold sync_announce. destruct (mem (op_head o) (s_cache st)); simpl;
+      [split; [intros p Hp; exact Hp | intros p Hp; left; exact Hp]|].
+    destruct (s_latest st =? op_head o); simpl; [split; [intros p Hp; exact Hp | intros p Hp; left; exact Hp]|].
+    destruct (make_syncer w _ (op_addrs o) (op_discfail o)) as [[sy|] st1] eqn:Hm;
+      destruct (make_syncer_frame _ _ _ _ _ _ Hm) as [_ [Hs _]]; simpl in Hs.
+    + destruct (handle fx w seg (op_head o) (s_latest st1) (op_hookfail o) sy (net0 o) (s_store st1)) as [ok cnt hk sy' n' store'] eqn:Hh.
+      destruct (handle_store _ _ _ _ _ _ _ _ _ _ Hh) as [_ [H5 [H6 _]]]. simpl in *. rewrite Hs in *.
+      destruct ok; simpl; (split; [exact H5|]); intros p Hp;
+        (destruct (H6 p Hp) as [|[_ [a [np Hi]]]]; [left; assumption | right; exists a, np; apply -> in_rev; exact Hi]).
+    + destruct (fx_announce fx); simpl; rewrite Hs; (split; [intros p Hp; exact Hp | intros p Hp; left; exact Hp]).
+Qed.
+
+Lemma segment_failure_count_zero_l : forall fx w seg h stop hf sy n store,
+  h_ok (handle fx w seg h stop hf sy n store) = false ->
+  h_count (handle fx w seg h stop hf sy n store) = 0.
+Proof.
+  intros fx w seg h stop hf sy n store H.
+  destruct (handle_store fx w seg h stop hf sy n store _ eq_refl) as [_ [_ [_ [_ H0]]]]. auto.
+Qed.
+
+(* ---------------------------------------------------------------------------------- *)
+(* Part 5: retry_converges                                                             *)
+
+Local Arguments remove : simpl never.
+
+Definition need (h L0 : nat) : list nat := if L0 =? h then [] else todo h L0.
+
+(* every sync of the history is a sync of head h; a publisher reached through libp2p-HTTP
+   discovery is announced with addresses that answer (the libp2p HTTP client binds itself
+   to the first HTTP address and refuses every other one) *)
+Definition wf_op (w : world) (h : nat) (o : op) : Prop :=
+  op_head o = h /\ (w_kind w <> KPlain -> forall a, In a (op_addrs o) -> alive w a = true).
+
+(* the publisher answers correctly again *)
+Definition retry_ok (w : world) (h : nat) (r : op) : Prop :=
+  wf_op w h r /\ op_faults r = [] /\ op_discfail r = false /\ op_hookfail r = None /\
+  exists a, In a (op_addrs r) /\ alive w a = true.
+
+Record HInv (w : world) (S0 : list nat) (L0 h : nat) (st : sstate) : Prop := {
+  hi_sy : forall sy, s_syncer st = Some sy -> SyOk w sy;
+  hi_s0 : sub S0 (s_store st);
+  hi_st : forall p, In p (s_store st) -> In p S0 \/ In p (need h L0);
+  hi_la : s_latest st = L0 \/ (s_latest st = h /\ sub (need h L0) (s_store st));
+  hi_ca : forall x, In x (s_cache st) -> x = h /\ s_latest st = h
+}.
+
+Lemma hinv_init : forall w S0 L0 h, HInv w S0 L0 h (init S0 L0).
+Proof.
+  intros. constructor; simpl.
+  - intros sy H. discriminate.
+  - intros p Hp. exact Hp.
+  - intros p Hp. left. exact Hp.
+  - left. reflexivity.
+  - intros x [].
+Qed.
+
+Lemma new_syncer_ok : forall w l d c sy c',
+  wf_world w -> (w_kind w <> KPlain -> forall a, In a l -> alive w a = true) ->
+  new_syncer w l d c = (Some sy, c') -> SyOk w sy /\ sy_addrs sy = l.
+Proof.
+  intros w l d c sy c' Hw Hal H. unfold new_syncer in H. destruct l as [|a0 l]; [discriminate|].
+  assert (Hnl : w_kind w <> KPlain -> w_legacy w = true -> False).
+  { intros Hk Hl. apply Hk. apply Hw. exact Hl. }
+  destruct (w_kind w) eqn:Hk.
+  - inversion H; subst. split; [|reflexivity]. constructor; simpl.
+    + discriminate.
+    + tauto.
+    + discriminate.
+    + reflexivity.
+    + discriminate.
+  - assert (Hne : KP2PHttp <> KPlain) by discriminate.
+    destruct (c || (alive w a0 && negb d)); inversion H; subst; (split; [|reflexivity]); constructor; simpl.
+    + discriminate.
+    + tauto.
+    + discriminate.
+    + intros Hl. exfalso. apply (Hnl Hne Hl).
+    + intros a Ha. inversion Ha; subst. split; [apply (Hal Hne); left; reflexivity | left; reflexivity].
+    + discriminate.
+    + tauto.
+    + discriminate.
+    + reflexivity.
+    + discriminate.
+  - assert (Hne : KStream <> KPlain) by discriminate.
+    destruct (c || negb d); inversion H; subst. split; [|reflexivity]. constructor; simpl.
+    + discriminate.
+    + tauto.
+    + discriminate.
+    + intros Hl. exfalso. apply (Hnl Hne Hl).
+    + discriminate.
+Qed.
+
+Lemma make_syncer_ok : forall w st addrs d sy st1,
+  wf_world w -> (forall sy0, s_syncer st = Some sy0 -> SyOk w sy0) ->
+  (w_kind w <> KPlain -> forall a, In a addrs -> alive w a = true) ->
+  make_syncer w st addrs d = (Some sy, st1) ->
+  SyOk w sy /\ (forall a, In a (sy_addrs sy) <-> In a addrs).
+Proof.
+  intros w st addrs d sy st1 Hw Hsy Hal H. unfold make_syncer in H.
+  assert (Hc : forall l, (forall a, In a l <-> In a addrs) ->
+          (let '(osy0, c) := new_syncer w l d (s_disc st) in
+              (osy0, {| s_latest := s_latest st; s_store := s_store st;
+                        s_syncer := match osy0 with Some _ => osy0 | None => s_syncer st end;
+                        s_cache := s_cache st; s_disc := c |})) = (Some sy, st1) ->
+          SyOk w sy /\ (forall a, In a (sy_addrs sy) <-> In a addrs)).
+  { intros l Hl Hn. destruct (new_syncer w l d (s_disc st)) as [o c] eqn:Hns. inversion Hn; subst.
+    destruct (new_syncer_ok w l d (s_disc st) sy c Hw) as [Hok Ha]; auto.
+    - intros Hk a Hi. apply (Hal Hk). apply Hl. exact Hi.
+    - split; [exact Hok|]. rewrite Ha. exact Hl. }
+  assert (Hid : forall a, In a addrs <-> In a addrs) by (intros; tauto).
+  destruct (s_syncer st) as [sy0|] eqn:Hs; [|apply (Hc addrs Hid); exact H].
+  destruct (negb (length (sy_addrs sy0) =? length addrs)); [apply (Hc addrs Hid); exact H|].
+  destruct (length addrs <=? 1).
+  - destruct (list_nat_eqb (sy_addrs sy0) addrs) eqn:He; [|apply (Hc addrs Hid); exact H].
+    inversion H; subst. apply list_nat_eqb_eq in He. split; [apply Hsy; reflexivity|].
+    rewrite He. intros; tauto.
+  - destruct (list_nat_eqb (sort (sy_addrs sy0)) (sort addrs)) eqn:He.
+    + inversion H; subst. apply list_nat_eqb_eq in He. split; [apply Hsy; reflexivity|].
+      intros a. rewrite <- (In_sort a (sy_addrs sy)), He. apply In_sort.
+    + apply (Hc (sort addrs)); [intros a; apply In_sort | exact H].
+Qed.
+
+Lemma make_syncer_some : forall w st addrs d,
+  addrs <> [] -> (w_kind w = KStream -> d = false) ->
+  exists sy st1, make_syncer w st addrs d = (Some sy, st1).
+Proof.
+  intros w st addrs d Hne Hd. unfold make_syncer.
+  assert (Hc : forall l, l <> [] ->
+          exists sy st1, (let '(osy0, c) := new_syncer w l d (s_disc st) in
+              (osy0, {| s_latest := s_latest st; s_store := s_store st;
+                        s_syncer := match osy0 with Some _ => osy0 | None => s_syncer st end;
+                        s_cache := s_cache st; s_disc := c |})) = (Some sy, st1)).
+  { intros l Hl. unfold new_syncer. destruct l as [|a0 l]; [congruence|].
+    destruct (w_kind w) eqn:Hk.
+    - eauto.
+    - destruct (s_disc st || (alive w a0 && negb d)); eauto.
+    - rewrite (Hd eq_refl). simpl. rewrite orb_true_r. eauto. }
+  assert (Hsn : sort addrs <> []).
+  { destruct addrs as [|a l]; [congruence|]. intros He.
+    assert (Hi : In a (sort (a :: l))) by (apply In_sort; left; reflexivity). rewrite He in Hi. destruct Hi. }
+  destruct (s_syncer st) as [sy0|]; [|apply Hc; exact Hne].
+  destruct (negb (length (sy_addrs sy0) =? length addrs)); [apply Hc; exact Hne|].
+  destruct (length addrs <=? 1).
+  - destruct (list_nat_eqb (sy_addrs sy0) addrs); [eauto | apply Hc; exact Hne].
+  - destruct (list_nat_eqb (sort (sy_addrs sy0)) (sort addrs)); [eauto | apply Hc; exact Hsn].
+Qed.
+
+Lemma HasGood_of : forall w sy,
+  SyOk w sy -> (exists a, In a (sy_addrs sy) /\ alive w a = true) -> HasGood w sy.
+Proof.
+  intros w sy Hok [a [Hi Ha]]. unfold HasGood, good.
+  destruct (sy_pinned sy) as [b|] eqn:Hp.
+  - destruct (so_pin _ _ Hok b Hp) as [Hb Hib]. exists b. split; [exact Hib|].
+    rewrite Hb. simpl. apply Nat.eqb_refl.
+  - exists a. split; [apply (so_el _ _ Hok); exact Hi|]. rewrite Ha. reflexivity.
+Qed.
+
+Lemma HInv_frame : forall w S0 L0 h st st',
+  HInv w S0 L0 h st -> s_latest st' = s_latest st -> s_store st' = s_store st ->
+  s_cache st' = s_cache st -> (forall sy, s_syncer st' = Some sy -> SyOk w sy) ->
+  HInv w S0 L0 h st'.
+Proof.
+  intros w S0 L0 h st st' [H1 H2 H3 H4 H5] Hl Hs Hc Hsy.
+  constructor; rewrite ?Hl, ?Hs, ?Hc; assumption.
+Qed.
+
+(* the state after handle, given the invariant before and what handle guarantees *)
+Lemma HInv_handled : forall w S0 L0 h st sy' store' cache' (ok : bool),
+  HInv w S0 L0 h st -> s_latest st <> h ->
+  SyOk w sy' -> sub (s_store st) store' ->
+  (forall p, In p store' -> In p (s_store st) \/ In p (todo h (s_latest st))) ->
+  (ok = true -> sub (todo h (s_latest st)) store') ->
+  (forall x, In x cache' -> x = h /\ ok = true) ->
+  HInv w S0 L0 h {| s_latest := if ok then h else s_latest st; s_store := store';
+                    s_syncer := Some sy'; s_cache := cache'; s_disc := s_disc st |}.
+Proof.
+  intros w S0 L0 h st sy' store' cache' ok [H1 H2 H3 H4 H5] Hne Hsy Hsub Hin Hall Hca.
+  assert (HL : s_latest st = L0) by (destruct H4 as [H4|[H4 _]]; [exact H4 | congruence]).
+  assert (Hn : need h L0 = todo h L0).
+  { unfold need. destruct (L0 =? h) eqn:E; [apply Nat.eqb_eq in E; congruence | reflexivity]. }
+  rewrite HL in *. constructor; simpl.
+  - intros sy E. inversion E; subst. exact Hsy.
+  - intros p Hp. apply Hsub. apply H2. exact Hp.
+  - intros p Hp. destruct (Hin p Hp) as [Hp'|Hp']; [apply H3; exact Hp' | right; rewrite Hn; exact Hp'].
+  - destruct ok; [right | left; reflexivity]. split; [reflexivity|]. rewrite Hn. apply Hall. reflexivity.
+  - intros x Hx. destruct (Hca x Hx) as [Hxh Hok]. subst ok. split; [exact Hxh | reflexivity].
+Qed.
+
+Lemma hinv_step : forall w seg S0 L0 h st o,
+  wf_world w -> HInv w S0 L0 h st -> wf_op w h o ->
+  HInv w S0 L0 h (fst (step fx_fixed w seg o st)).
+Proof.
+  intros w seg S0 L0 h st o Hw Hinv [Hh Hal]. unfold step. destruct (op_mode o).
+  - (* explicit *)
+    unfold sync_explicit.
+    destruct (make_syncer w st (op_addrs o) (op_discfail o)) as [[sy|] st1] eqn:Hm;
+      destruct (make_syncer_frame _ _ _ _ _ _ Hm) as [Fl [Fs [Fc [Fy Fn]]]]; simpl.
+    2:{ apply (HInv_frame w S0 L0 h st); auto. rewrite (Fn eq_refl). apply (hi_sy _ _ _ _ _ Hinv). }
+    destruct (make_syncer_ok w st _ _ _ _ Hw (hi_sy _ _ _ _ _ Hinv) Hal Hm) as [Hok _].
+    destruct (fetch fx_fixed w Head sy (net0 o)) as [[res sy1] n1] eqn:Hf.
+    destruct (fetch_inv _ _ _ _ _ _ _ Hok Hf) as [Hok1 _].
+    assert (Hsame : HInv w S0 L0 h (with_sync st1 sy1 (s_store st1) (s_latest st1) (s_cache st1))).
+    { apply (HInv_frame w S0 L0 h st); simpl; auto. intros s E. inversion E; subst. exact Hok1. }
+    destruct res; simpl; try exact Hsame.
+    rewrite Hh. destruct (s_latest st1 =? h) eqn:El; simpl; [exact Hsame|].
+    apply Nat.eqb_neq in El.
+    destruct (handle fx_fixed w seg h (s_latest st1) (op_hookfail o) sy1 n1 (s_store st1)) as [ok cnt hk sy' n' store'] eqn:Hhd.
+    destruct (handle_inv _ _ _ _ _ _ _ _ _ Hok1 Hhd) as [G1 [_ [_ [_ [G5 [G6 [G7 _]]]]]]]. simpl in *.
+    rewrite Fl, Fs, Fc in *.
+    pose proof (HInv_handled w S0 L0 h st sy' store' (s_cache st) ok Hinv El G1 G5) as HH.
+    destruct ok; simpl; unfold with_sync; simpl.
+    + replace (s_disc st1) with (s_disc st1) by reflexivity.
+      assert (HI : HInv w S0 L0 h {| s_latest := h; s_store := store'; s_syncer := Some sy'; s_cache := s_cache st; s_disc := s_disc st |}).
+      { apply HH; auto.
+        - intros p Hp. destruct (G6 p Hp) as [|[Hi _]]; auto.
+        - intros x Hx. destruct (hi_ca _ _ _ _ _ Hinv x Hx) as [Hx1 Hx2]. congruence. }
+      destruct HI as [I1 I2 I3 I4 I5]. constructor; simpl; assumption.
+    + assert (HI : HInv w S0 L0 h {| s_latest := s_latest st; s_store := store'; s_syncer := Some sy'; s_cache := s_cache st; s_disc := s_disc st |}).
+      { apply HH; auto.
+        - intros p Hp. destruct (G6 p Hp) as [|[Hi _]]; auto.
+        - intros x Hx. destruct (hi_ca _ _ _ _ _ Hinv x Hx) as [Hx1 Hx2]. congruence. }
+      destruct HI as [I1 I2 I3 I4 I5]. constructor; simpl; assumption.
+  - (* announce *)
+    unfold sync_announce. rewrite Hh.
+    destruct (mem h (s_cache st)) eqn:Hmem; simpl; [exact Hinv|].
+    destruct (s_latest st =? h) eqn:El; simpl.
+    { apply Nat.eqb_eq in El. destruct Hinv as [I1 I2 I3 I4 I5]. constructor; simpl; auto.
+      intros x [Hx|Hx]; [subst; auto | apply I5; exact Hx]. }
+    apply Nat.eqb_neq in El.
+    assert (Hnc : forall x, In x (s_cache st) -> False).
+    { intros x Hx. destruct (hi_ca _ _ _ _ _ Hinv x Hx) as [_ Hx2]. congruence. }
+    set (st0 := set_cache st (h :: s_cache st)).
+    destruct (make_syncer w st0 (op_addrs o) (op_discfail o)) as [[sy|] st1] eqn:Hm;
+      destruct (make_syncer_frame _ _ _ _ _ _ Hm) as [Fl [Fs [Fc [Fy Fn]]]]; simpl in Fl, Fs, Fc.
+    + destruct (make_syncer_ok w st0 _ _ _ _ Hw (hi_sy _ _ _ _ _ Hinv) Hal Hm) as [Hok _].
+      destruct (handle fx_fixed w seg h (s_latest st1) (op_hookfail o) sy (net0 o) (s_store st1)) as [ok cnt hk sy' n' store'] eqn:Hhd.
+      destruct (handle_inv _ _ _ _ _ _ _ _ _ Hok Hhd) as [G1 [_ [_ [_ [G5 [G6 [G7 _]]]]]]]. simpl in *.
+      rewrite Fl, Fs, Fc in *.
+      destruct ok; simpl; unfold with_sync; simpl.
+      * assert (HI : HInv w S0 L0 h {| s_latest := h; s_store := store'; s_syncer := Some sy'; s_cache := h :: s_cache st; s_disc := s_disc st |}).
+        { apply (HInv_handled w S0 L0 h st sy' store' (h :: s_cache st) true); auto.
+          - intros p Hp. destruct (G6 p Hp) as [|[Hi _]]; auto.
+          - intros x [Hx|Hx]; [subst; auto | exfalso; eapply Hnc; eauto]. }
+        destruct HI as [I1 I2 I3 I4 I5]. constructor; simpl; assumption.
+      * assert (HI : HInv w S0 L0 h {| s_latest := s_latest st; s_store := store'; s_syncer := Some sy';
+                                      s_cache := remove h (h :: s_cache st); s_disc := s_disc st |}).
+        { apply (HInv_handled w S0 L0 h st sy' store' (remove h (h :: s_cache st)) false); auto.
+          - intros p Hp. destruct (G6 p Hp) as [|[Hi _]]; auto.
+          - intros x Hx. exfalso. pose proof (In_remove_sub _ _ _ Hx) as Hx'.
+            destruct Hx' as [Hx'|Hx']; [subst; eapply In_remove; eauto | eapply Hnc; eauto]. }
+        destruct HI as [I1 I2 I3 I4 I5]. constructor; simpl; assumption.
+    + cbn [fx_announce fx_fixed]. simpl. unfold set_cache. simpl. rewrite Fc.
+      destruct Hinv as [I1 I2 I3 I4 I5]. constructor; simpl; rewrite ?Fl, ?Fs; auto.
+      * rewrite (Fn eq_refl). exact I1.
+      * intros x Hx. exfalso. pose proof (In_remove_sub _ _ _ Hx) as Hx'.
+        destruct Hx' as [Hx'|Hx']; [subst; eapply In_remove; eauto | eapply Hnc; eauto].
+Qed.
+
+Lemma hinv_run : forall w seg S0 L0 h ops st,
+  wf_world w -> HInv w S0 L0 h st -> Forall (wf_op w h) ops ->
+  HInv w S0 L0 h (run fx_fixed w seg ops st).
+Proof.
+  intros w seg S0 L0 h ops. induction ops as [|o ops IH]; intros st Hw Hinv Hall; simpl; [exact Hinv|].
+  inversion Hall; subst. apply IH; auto. apply hinv_step; auto.
+Qed.
+
+Lemma store_done : forall w S0 L0 h st,
+  HInv w S0 L0 h st -> s_latest st = h ->
+  forall p, In p (s_store st) <-> In p S0 \/ In p (need h L0).
+Proof.
+  intros w S0 L0 h st [I1 I2 I3 I4 I5] Hl p. split; [apply I3|].
+  intros [Hp|Hp]; [apply I2; exact Hp|].
+  destruct I4 as [I4|[_ I4]]; [|apply I4; exact Hp].
+  unfold need in Hp. rewrite <- I4, Hl, Nat.eqb_refl in Hp. destruct Hp.
+Qed.
+
+Lemma clean_net0 : forall r, op_faults r = [] -> clean (net0 r).
+Proof. intros r H. unfold clean, net0. simpl. auto. Qed.
+
+(* the fault-free retry, from any state the invariant allows *)
+Lemma retry_from_inv : forall w seg S0 L0 h st r,
+  wf_world w -> HInv w S0 L0 h st -> retry_ok w h r ->
+  let st' := fst (step fx_fixed w seg r st) in
+  failed (o_res (snd (step fx_fixed w seg r st))) = false /\
+  s_latest st' = h /\ (forall p, In p (s_store st') <-> In p S0 \/ In p (need h L0)).
+Proof.
+  intros w seg S0 L0 h st r Hw Hinv [[Hh Hal] [Hf [Hd [Hhf [a [Hia Haa]]]]]].
+  assert (Hne : op_addrs r <> []) by (intros E; rewrite E in Hia; destruct Hia).
+  assert (Hds : w_kind w = KStream -> op_discfail r = false) by (intros; exact Hd).
+  (* what the sync proper does, from a state whose latest-sync is not h *)
+  assert (Hsync : forall st0 sy n, s_latest st0 = s_latest st -> s_store st0 = s_store st ->
+            s_latest st <> h -> SyOk w sy -> HasGood w sy -> clean n ->
+            let rr := handle fx_fixed w seg h (s_latest st0) (op_hookfail r) sy n (s_store st0) in
+            h_ok rr = true /\ (forall p, In p (h_store rr) <-> In p S0 \/ In p (need h L0))).
+  { intros st0 sy n El Es Hneq Hok Hg Hc. rewrite Hhf, El, Es. cbv zeta. split; [apply handle_clean; auto|].
+    destruct (handle_inv w seg h (s_latest st) None sy n (s_store st) _ Hok eq_refl) as [_ [_ [_ [_ [G5 [G6 [G7 _]]]]]]].
+    pose proof (handle_clean w seg h (s_latest st) sy n (s_store st) Hw Hok Hc Hg) as Hk.
+    destruct Hinv as [I1 I2 I3 I4 I5].
+    assert (HL : s_latest st = L0) by (destruct I4 as [I4|[I4 _]]; [exact I4 | congruence]).
+    assert (Hn : need h L0 = todo h L0).
+    { unfold need. destruct (L0 =? h) eqn:E; [apply Nat.eqb_eq in E; congruence | reflexivity]. }
+    intros p. split.
+    - intros Hp. destruct (G6 p Hp) as [Hp'|[Hp' _]]; [apply I3; exact Hp' | right; rewrite Hn, <- HL; exact Hp'].
+    - intros [Hp|Hp]; [apply G5; apply I2; exact Hp | apply (G7 Hk); rewrite HL, <- Hn; exact Hp]. }
+  unfold step. destruct (op_mode r).
+  - (* explicit *)
+    unfold sync_explicit.
+    destruct (make_syncer_some w st (op_addrs r) (op_discfail r) Hne Hds) as [sy [st1 Hm]]. rewrite Hm.
+    destruct (make_syncer_frame _ _ _ _ _ _ Hm) as [Fl [Fs [Fc _]]].
+    destruct (make_syncer_ok w st _ _ _ _ Hw (hi_sy _ _ _ _ _ Hinv) Hal Hm) as [Hok Hel].
+    assert (Hg : HasGood w sy) by (apply HasGood_of; [exact Hok | exists a; split; [apply Hel; exact Hia | exact Haa]]).
+    destruct (fetch_clean w Head sy (net0 r) Hw Hok (clean_net0 r Hf) Hg) as [sy1 [n1 [Hft Hc1]]]. rewrite Hft.
+    destruct (fetch_inv _ _ _ _ _ _ _ Hok Hft) as [Hok1 [A1 [A2 _]]].
+    rewrite Hh. destruct (s_latest st1 =? h) eqn:El; simpl.
+    + apply Nat.eqb_eq in El. split; [reflexivity|]. split; [exact El|]. rewrite Fs. apply (store_done w S0 L0 h st Hinv). congruence.
+    + apply Nat.eqb_neq in El.
+      assert (Hg1 : HasGood w sy1) by (apply (HasGood_transfer w sy sy1); assumption).
+      destruct (Hsync st1 sy1 n1 Fl Fs ltac:(congruence) Hok1 Hg1 Hc1) as [Hk Hst]. rewrite Hk. simpl.
+      split; [reflexivity | split; [reflexivity | exact Hst]].
+  - (* announce-triggered *)
+    unfold sync_announce. rewrite Hh.
+    destruct (mem h (s_cache st)) eqn:Hmem; simpl.
+    { apply mem_In in Hmem. destruct (hi_ca _ _ _ _ _ Hinv h Hmem) as [_ Hl]. split; [reflexivity|]. split; [exact Hl|].
+      apply (store_done w S0 L0 h st Hinv Hl). }
+    destruct (s_latest st =? h) eqn:El; simpl.
+    { apply Nat.eqb_eq in El. split; [reflexivity|]. split; [exact El | apply (store_done w S0 L0 h st Hinv El)]. }
+    apply Nat.eqb_neq in El.
+    set (st0 := set_cache st (h :: s_cache st)).
+    destruct (make_syncer_some w st0 (op_addrs r) (op_discfail r) Hne Hds) as [sy [st1 Hm]]. rewrite Hm.
+    destruct (make_syncer_frame _ _ _ _ _ _ Hm) as [Fl [Fs [Fc _]]]. simpl in Fl, Fs, Fc.
+    destruct (make_syncer_ok w st0 _ _ _ _ Hw (hi_sy _ _ _ _ _ Hinv) Hal Hm) as [Hok Hel].
+    assert (Hg : HasGood w sy) by (apply HasGood_of; [exact Hok | exists a; split; [apply Hel; exact Hia | exact Haa]]).
+    destruct (Hsync st1 sy (net0 r) Fl Fs El Hok Hg (clean_net0 r Hf)) as [Hk Hst]. rewrite Hk. simpl.
+    split; [reflexivity | split; [reflexivity | exact Hst]].
+Qed.
+
+(* after ANY history of syncs of head h (any faults, any number of failed syncs, either
+   mode), a fault-free sync of h ends with latest-sync = h and exactly the store that the
+   same sync yields on a fresh subscriber *)
+Theorem retry_converges_l : forall w seg S0 L0 h ops r,
+  wf_world w -> Forall (wf_op w h) ops -> retry_ok w h r ->
+  let st1 := fst (step fx_fixed w seg r (run fx_fixed w seg ops (init S0 L0))) in
+  let st0 := fst (step fx_fixed w seg r (init S0 L0)) in
+  failed (o_res (snd (step fx_fixed w seg r (run fx_fixed w seg ops (init S0 L0))))) = false /\
+  s_latest st1 = h /\ s_latest st0 = h /\ (forall p, In p (s_store st1) <-> In p (s_store st0)).
+Proof.
+  intros w seg S0 L0 h ops r Hw Hops Hr.
+  pose proof (hinv_run w seg S0 L0 h ops _ Hw (hinv_init w S0 L0 h) Hops) as H1.
+  destruct (retry_from_inv w seg S0 L0 h _ r Hw H1 Hr) as [A0 [A1 A2]].
+  destruct (retry_from_inv w seg S0 L0 h _ r Hw (hinv_init w S0 L0 h) Hr) as [_ [B1 B2]].
+  cbv zeta. split; [exact A0 | split; [exact A1 | split; [exact B1|]]]. intros p. rewrite A2, B2. tauto.
+Qed.
+
+
+(* the invariant retry_converges rests on, as a statement of its own: whatever failed
+   before, the syncer the subscriber keeps for the publisher still addresses it *)
+Lemma reused_syncer_addresses_publisher_l : forall w seg S0 L0 h ops sy,
+  wf_world w -> Forall (wf_op w h) ops ->
+  s_syncer (run fx_fixed w seg ops (init S0 L0)) = Some sy -> SyOk w sy.
+Proof.
+  intros w seg S0 L0 h ops sy Hw Hops H.
+  apply (hi_sy _ _ _ _ _ (hinv_run w seg S0 L0 h ops _ Hw (hinv_init w S0 L0 h) Hops)). exact H.
+Qed.
+
+(* ---------------------------------------------------------------------------------- *)
+(* Part 6: the code before the fixes (each fix is needed), and non-vacuity              *)
+
+Definition fx_without_nopath := {| fx_nopath := false; fx_rotate := true; fx_announce := true |}.
+Definition fx_without_rotate := {| fx_nopath := true; fx_rotate := false; fx_announce := true |}.
+Definition fx_without_announce := {| fx_nopath := true; fx_rotate := true; fx_announce := false |}.
+
+Definition op_e (addrs : list nat) (h : nat) (faults : list fault) : op :=
+  {| op_mode := Explicit; op_addrs := addrs; op_head := h; op_faults := faults; op_discfail := false; op_hookfail := None |}.
+Definition op_a (addrs : list nat) (h : nat) (faults : list fault) (discfail : bool) : op :=
+  {| op_mode := Announce; op_addrs := addrs; op_head := h; op_faults := faults; op_discfail := discfail; op_hookfail := None |}.
+
+Definition w_plain (al : list bool) := {| w_kind := KPlain; w_legacy := false; w_alive := al |}.
+Definition w_p2p (al : list bool) := {| w_kind := KP2PHttp; w_legacy := false; w_alive := al |}.
+Definition w_stream (al : list bool) := {| w_kind := KStream; w_legacy := false; w_alive := al |}.
+
+Lemma wf_world_nolegacy : forall k al, wf_world {| w_kind := k; w_legacy := false; w_alive := al |}.
+Proof. intros k al H. discriminate. Qed.
+
+Ltac wf_plain := split; [reflexivity | intros Hk; exfalso; apply Hk; reflexivity].
+Ltac wf_alive := split; [reflexivity | intros _ a Ha; simpl in Ha; repeat (destruct Ha as [Ha|Ha]; [subst; reflexivity|]); destruct Ha].
+
+(* D1: one 404 on a plain-HTTP publisher; the retry then asks "/head" and is refused *)
+Lemma retry_converges_v0_nopath_refuted :
+  let w := w_plain [true] in
+  let ops := [op_e [0] 1 [FOk; FNotFound]] in
+  let r := op_e [0] 1 [] in
+  wf_world w /\ Forall (wf_op w 1) ops /\ retry_ok w 1 r /\
+  o_res (snd (step fx_without_nopath w 0 r (run fx_without_nopath w 0 ops (init [] 0)))) = RExpErr /\
+  o_log (snd (step fx_without_nopath w 0 r (run fx_without_nopath w 0 ops (init [] 0)))) = [(0, true, Head, Some FOk)] /\
+  s_latest (fst (step fx_without_nopath w 0 r (run fx_without_nopath w 0 ops (init [] 0)))) = 0 /\
+  s_latest (fst (step fx_without_nopath w 0 r (init [] 0))) = 1 /\
+  s_latest (fst (step fx_v0 w 0 r (run fx_v0 w 0 ops (init [] 0)))) = 0.
+Proof.
+  cbv zeta. split; [apply wf_world_nolegacy|]. split; [repeat (apply Forall_cons; [wf_plain|]); apply Forall_nil|].
+  split; [split; [wf_plain|]; repeat split; try reflexivity; exists 0; split; [left|]; reflexivity|].
+  vm_compute. repeat split.
+Qed.
+
+(* D2: two addresses, the second one dead; one transport error on the first *)
+Lemma retry_converges_v0_urls_refuted :
+  let w := w_plain [true; false] in
+  let ops := [op_e [0; 1] 1 [FTransport]] in
+  let r := op_e [0; 1] 1 [] in
+  wf_world w /\ Forall (wf_op w 1) ops /\ retry_ok w 1 r /\
+  o_res (snd (step fx_without_rotate w 0 r (run fx_without_rotate w 0 ops (init [] 0)))) = RExpErr /\
+  o_log (snd (step fx_without_rotate w 0 r (run fx_without_rotate w 0 ops (init [] 0)))) = [(1, false, Head, None)] /\
+  s_latest (fst (step fx_without_rotate w 0 r (run fx_without_rotate w 0 ops (init [] 0)))) = 0 /\
+  s_latest (fst (step fx_without_rotate w 0 r (init [] 0))) = 1 /\
+  s_latest (fst (step fx_v0 w 0 r (run fx_v0 w 0 ops (init [] 0)))) = 0.
+Proof.
+  cbv zeta. split; [apply wf_world_nolegacy|]. split; [repeat (apply Forall_cons; [wf_plain|]); apply Forall_nil|].
+  split; [split; [wf_plain|]; repeat split; try reflexivity; exists 0; split; [left|]; reflexivity|].
+  vm_compute. repeat split.
+Qed.
+
+(* D2 on a libp2phttp publisher with two (healthy) HTTP addresses: no request even leaves
+   the client any more *)
+Lemma retry_converges_v0_urls_p2phttp_refuted :
+  let w := w_p2p [true; true] in
+  let ops := [op_e [0; 1] 2 [FOk; FStallHdr]] in
+  let r := op_e [0; 1] 2 [] in
+  wf_world w /\ Forall (wf_op w 2) ops /\ retry_ok w 2 r /\
+  o_res (snd (step fx_without_rotate w 0 r (run fx_without_rotate w 0 ops (init [] 0)))) = RExpErr /\
+  o_log (snd (step fx_without_rotate w 0 r (run fx_without_rotate w 0 ops (init [] 0)))) = [] /\
+  s_latest (fst (step fx_without_rotate w 0 r (init [] 0))) = 2.
+Proof.
+  cbv zeta. split; [apply wf_world_nolegacy|]. split; [repeat (apply Forall_cons; [wf_alive|]); apply Forall_nil|].
+  split; [split; [wf_alive|]; repeat split; try reflexivity; exists 0; split; [left|]; reflexivity|].
+  vm_compute. repeat split.
+Qed.
+
+(* D3: the syncer cannot be made when the announcement arrives (discovery fails): no
+   notification, the CID stays in the duplicate filter, the same announcement is dropped *)
+Lemma async_failure_v0_makesyncer_refuted :
+  let w := w_stream [true] in
+  let o := op_a [0] 1 [] true in
+  let r := op_a [0] 1 [] false in
+  wf_world w /\ wf_op w 1 o /\ retry_ok w 1 r /\
+  o_res (snd (step fx_without_announce w 0 o (init [] 0))) = RAnnSilent /\
+  o_events (snd (step fx_without_announce w 0 o (init [] 0))) = [] /\
+  In 1 (s_cache (fst (step fx_without_announce w 0 o (init [] 0)))) /\
+  o_res (snd (step fx_without_announce w 0 r (run fx_without_announce w 0 [o] (init [] 0)))) = RAnnDropped /\
+  s_latest (fst (step fx_without_announce w 0 r (run fx_without_announce w 0 [o] (init [] 0)))) = 0 /\
+  s_latest (fst (step fx_without_announce w 0 r (init [] 0))) = 1.
+Proof.
+  cbv zeta. split; [apply wf_world_nolegacy|]. split; [wf_alive|].
+  split; [split; [wf_alive|]; repeat split; try reflexivity; exists 0; split; [left|]; reflexivity|].
+  vm_compute. repeat split. left. reflexivity.
+Qed.
+
+(* Non-vacuity: histories meeting the hypotheses of the theorems, on the repaired code *)
+Example ex_failed_sync :
+  let w := w_plain [true] in
+  let o := op_e [0] 3 [FOk; FOk; FCorrupt] in
+  failed (o_res (snd (step fx_fixed w 0 o (init [] 0)))) = true /\
+  s_store (fst (step fx_fixed w 0 o (init [] 0))) = [3] /\
+  o_events (snd (step fx_fixed w 0 o (init [] 0))) = [].
+Proof. vm_compute. repeat split. Qed.
+
+Example ex_async_failure_segmented_hook :
+  let w := w_stream [true] in
+  let o := {| op_mode := Announce; op_addrs := [0]; op_head := 3; op_faults := []; op_discfail := false; op_hookfail := Some 1 |} in
+  o_res (snd (step fx_fixed w 2 o (init [] 0))) = RAnnErr /\
+  o_events (snd (step fx_fixed w 2 o (init [] 0))) = [EvErr 3 0] /\
+  o_hooks (snd (step fx_fixed w 2 o (init [] 0))) = [3; 2] /\
+  s_store (fst (step fx_fixed w 2 o (init [] 0))) = [2; 3] /\
+  s_cache (fst (step fx_fixed w 2 o (init [] 0))) = [].
+Proof. vm_compute. repeat split. Qed.
+
+Example ex_retry_converges :
+  let w := w_plain [true; false] in
+  let ops := [op_e [0; 1] 3 [FOk; FNotFound]; op_a [0; 1] 3 [FOk; FTransport] false; op_e [0; 1] 3 [FOk; FOk; FStallBody]] in
+  let r := op_a [0; 1] 3 [] false in
+  Forall (wf_op w 3) ops /\ retry_ok w 3 r /\
+  s_latest (run fx_fixed w 1 ops (init [] 0)) = 0 /\
+  s_store (run fx_fixed w 1 ops (init [] 0)) = [2; 3] /\
+  o_res (snd (step fx_fixed w 1 r (run fx_fixed w 1 ops (init [] 0)))) = RAnnOk /\
+  o_events (snd (step fx_fixed w 1 r (run fx_fixed w 1 ops (init [] 0)))) = [EvOk 3 3] /\
+  s_latest (fst (step fx_fixed w 1 r (run fx_fixed w 1 ops (init [] 0)))) = 3.
+Proof.
+  cbv zeta. split; [repeat (apply Forall_cons; [wf_plain|]); apply Forall_nil|].
+  split; [split; [wf_plain|]; repeat split; try reflexivity; exists 0; split; [left|]; reflexivity|].
+  vm_compute. repeat split.
+Qed.
+
+Example ex_legacy_publisher_still_served :
+  let w := {| w_kind := KPlain; w_legacy := true; w_alive := [true] |} in
+  o_res (snd (step fx_fixed w 0 (op_e [0] 2 []) (init [] 0))) = RExpOk 2 /\
+  o_log (snd (step fx_fixed w 0 (op_e [0] 2 []) (init [] 0))) =
+    [(0, false, Head, Some FOk); (0, true, Head, Some FOk); (0, true, Blk 2, Some FOk); (0, true, Blk 1, Some FOk)].
+Proof. vm_compute. repeat split. Qed.
